@@ -18,7 +18,7 @@ RULE = ('E4: pack_partitions_to_parquet of a fixed 7-row / 2-input-partition poi
         'configurations {temp dir inside the dataset, external temp dir with {uuid}} x {3 output partitions (none empty), 10 output '
         'partitions (some empty)}. Enumeration: EVERY position k = 1..K of the fault-free trace x every fault kind applicable to '
         'the primitive at k (OSError before acting, FileNotFoundError before acting, act-then-raise for mutating primitives, stale '
-        'listing for ls/find), one run per (k, kind), _retry_args = 3 attempts without waiting. E1 (Hypothesis): pairs of faults and '
+        'listing for ls/find), one run per (k, kind), _retry_args = 3 attempts without waiting. E1 (Hypothesis): pairs of faults (mostly the second within 14 calls after the first, i.e. inside the recovery path) and '
         'sticky faults (the same primitive on the same path failing r = 1..3 consecutive times, i.e. within and beyond the retry '
         'budget). Oracle: snapshot of the fault-free dataset (listing with entry types, rows and index order per part file, '
         '_common_metadata partition bounds, _metadata row groups, no file under the temp root): the call must either return with '
@@ -28,9 +28,10 @@ RULE = ('E4: pack_partitions_to_parquet of a fixed 7-row / 2-input-partition poi
 ASSUMPTIONS = ['faults are injected at the fsspec boundary; byte-level corruption inside pyarrow\'s writer is modelled only as act-then-raise on open',
                'synchronous Dask scheduler so that the call trace is deterministic (checked: two fault-free runs give the same trace)']
 SCOPE = {'quick': {'configs': ['ext_empty', 'dflt'], 'single_faults': 'all positions x all applicable kinds'},
-         'thorough': {'configs': ['dflt_empty', 'ext_empty', 'dflt', 'ext'], 'single_faults': 'all positions x all applicable kinds'}}
+         'thorough': {'configs': ['dflt_empty', 'ext_empty', 'dflt', 'ext'], 'single_faults': 'all positions x all applicable kinds',
+                      'fault_pairs': 'configs ext and dflt_empty: every first fault x every second fault (OSError / FileNotFoundError / stale listing) within the next 12 calls'}}
 EXHAUSTIVE = {'quick': True, 'thorough': True}
-BUDGET = {'quick': {'shards': 8, 'examples': 400, 'min_evaluations': 300},
+BUDGET = {'quick': {'shards': 8, 'examples': 640, 'min_evaluations': 300},
           'thorough': {'shards': 16, 'examples': 12000, 'min_evaluations': 2000}}
 CONFIGS = {'dflt': (3, False), 'dflt_empty': (10, False), 'ext': (3, True), 'ext_empty': (10, True)}
 RA = dict(stop_max_attempt_number=3)
@@ -229,12 +230,21 @@ def evaluate(case):
 
 
 # ----------------------------------------------------------------------------- E4 exhaustive single faults
+WINDOW = 12
+
+
 def enum_tasks(tier, seed):
     tasks = []
     per = 8 if tier == 'quick' else 6
     for cfg in SCOPE[tier]['configs']:
         for c in range(per):
             tasks.append({'config': cfg, 'chunk': c, 'of': per})
+    if tier == 'thorough':
+        # every pair (first fault at k1, second fault within the next WINDOW calls of the faulty run): the second fault
+        # lands in whatever recovery path the first one opened, including calls that never occur in a fault-free run
+        for cfg in ('ext', 'dflt_empty'):
+            for c in range(48):
+                tasks.append({'config': cfg, 'chunk': c, 'of': 48, 'pairs': True})
     return tasks
 
 
@@ -250,7 +260,12 @@ def run_enum_task(task):
     for k in range(1, K + 1):
         op = b['trace'][k - 1][0]
         for kind in faultfs.kinds_for(op):
-            plans.append([[k, kind]])
+            if task.get('pairs'):
+                for d in range(1, WINDOW + 1):
+                    for kind2 in ('oserror', 'fnf', 'stale'):
+                        plans.append([[k, kind], [k + d, kind2]])
+            else:
+                plans.append([[k, kind]])
     for plan in plans[task['chunk']::task['of']]:
         case = {'config': cfg, 'plan': plan}
         add_outcome(res, case, safe_evaluate(me, case), keep_digest=False)
@@ -271,6 +286,11 @@ def _case(draw):
         r = draw(st.integers(2, 3))
         kind = draw(st.sampled_from(['oserror', 'fnf', 'after']))
         return {'config': cfg, 'plan': [[draw(st.integers(1, kmax)), f'{kind}*{r}']]}
+    if mode == 'pair' and draw(st.integers(0, 3)) != 0:
+        # second fault inside the recovery path of the first: within the next few filesystem calls
+        k1 = draw(st.integers(1, kmax))
+        k2 = k1 + draw(st.integers(1, 14))
+        return {'config': cfg, 'plan': [[k1, draw(st.sampled_from(KINDS))], [k2, draw(st.sampled_from(KINDS))]]}
     n = 2 if mode == 'pair' else 3
     ks = sorted(draw(st.lists(st.integers(1, kmax), min_size=n, max_size=n, unique=True)))
     return {'config': cfg, 'plan': [[k, draw(st.sampled_from(KINDS))] for k in ks]}
